@@ -61,8 +61,8 @@ PROPS = {
     },
     "C14": {
         "pkg": "sqlite", "level": "fault_enumeration",
-        "quick": {"stages": [st("^TestC14Fault", 150), st("^TestC14Reopen", 60)]},
-        "thorough": {"stages": [st("^TestC14Fault", 800, shards=10, timeout=1800), st("^TestC14Reopen", 300, shards=6, timeout=1800)]},
+        "quick": {"stages": [st("^TestC14Fault", 150), st("^TestC14Reopen", 60), st("^TestC14LargeBatch", 4)]},
+        "thorough": {"stages": [st("^TestC14Fault", 800, shards=8, timeout=1800), st("^TestC14Reopen", 300, shards=5, timeout=1800), st("^TestC14LargeBatch", 25, shards=3, timeout=1800)]},
     },
     "C12": {
         "pkg": "session", "level": "exploration",
@@ -71,8 +71,8 @@ PROPS = {
     },
     "C13": {
         "pkg": "session", "level": "exploration",
-        "quick": {"stages": [st("^TestC13Termination", 600), st("^TestC13WebSocket", 3, shrinktime="40s")]},
-        "thorough": {"stages": [st("^TestC13Termination", 5000, shards=12), st("^TestC13Termination", 800, shards=3, race=True), st("^TestC13WebSocket", 20, shards=1, shrinktime="60s")]},
+        "quick": {"stages": [st("^TestC13Termination", 600), st("^TestC13WebSocketSend", 3, shrinktime="40s"), st("^TestC13WebSocketCancel", 4, shrinktime="40s")]},
+        "thorough": {"stages": [st("^TestC13Termination", 5000, shards=12), st("^TestC13Termination", 800, shards=3, race=True), st("^TestC13WebSocketSend", 20, shards=1, shrinktime="60s"), st("^TestC13WebSocketCancel", 30, shards=1, shrinktime="60s")]},
     },
     "C20": {
         "pkg": "core", "level": "exploration",
